@@ -27,6 +27,8 @@ package atree
 //@ axiom forall e Storable :: 1 <= bs(e) && bs(e) <= 4294967295 because "A4: ByteSize returns a uint32 and every encoded element occupies at least one byte (CBOR)"
 
 //@ iface Storable.ByteSize() (size)
+//@   conform all
+//@   serves C06
 //@   ensures size == bs(recv)
 //@   pure
 
@@ -77,7 +79,7 @@ package atree
 //@   ensures[C09] stoFrameADS(a, valueRoot(value))
 //@   ensures[C01 C03] err == nil && !a.inlined ==> has(stored, a) && sto[a.header.slabID] == a
 //@   ensures[C18] err != nil ==> categorised(err)
-//@   modifies a.elements, a.header, ghost.sto, ghost.stored, ghost.touched, alloc, as(valueRoot(value), *ArrayDataSlab).header, as(valueRoot(value), *ArrayDataSlab).inlined, as(valueRoot(value), *MapDataSlab).header, as(valueRoot(value), *MapDataSlab).inlined
+//@   modifies a.elements, a.header, ghost.sto, ghost.issued, ghost.stored, ghost.touched, alloc, as(valueRoot(value), *ArrayDataSlab).header, as(valueRoot(value), *ArrayDataSlab).inlined, as(valueRoot(value), *MapDataSlab).header, as(valueRoot(value), *MapDataSlab).inlined
 //@   loop 1: invariant 0 <= i && i <= len(a.elements) && size == arrPrefix(a) + sum(bs, a.elements, i)
 
 //@ func (a *ArrayDataSlab) Insert(storage, address, index, value) (err)  serves C01 C03 C05 C06 C18
@@ -93,7 +95,7 @@ package atree
 //@   ensures[C09] stoFrameADS(a, valueRoot(value))
 //@   ensures[C01 C03] err == nil && !a.inlined ==> has(stored, a) && sto[a.header.slabID] == a
 //@   ensures[C18] err != nil ==> categorised(err)
-//@   modifies a.elements, a.header, ghost.sto, ghost.stored, ghost.touched, alloc, as(valueRoot(value), *ArrayDataSlab).header, as(valueRoot(value), *ArrayDataSlab).inlined, as(valueRoot(value), *MapDataSlab).header, as(valueRoot(value), *MapDataSlab).inlined
+//@   modifies a.elements, a.header, ghost.sto, ghost.issued, ghost.stored, ghost.touched, alloc, as(valueRoot(value), *ArrayDataSlab).header, as(valueRoot(value), *ArrayDataSlab).inlined, as(valueRoot(value), *MapDataSlab).header, as(valueRoot(value), *MapDataSlab).inlined
 
 //@ func (a *ArrayDataSlab) Remove(storage, index) (v, err)  serves C01 C03 C06 C18
 //@   requires wfADS(a) && storage != nil
@@ -106,7 +108,7 @@ package atree
 //@   ensures[C09] stoFrameADS(a, nil)
 //@   ensures[C01 C03] err == nil && !a.inlined ==> has(stored, a) && sto[a.header.slabID] == a
 //@   ensures[C18] err != nil ==> categorised(err)
-//@   modifies a.elements, a.header, ghost.sto, ghost.stored, ghost.touched, alloc
+//@   modifies a.elements, a.header, ghost.sto, ghost.issued, ghost.stored, ghost.touched, alloc
 
 //@ functype ArrayPopIterationFunc(s)
 //@   pure
@@ -133,7 +135,9 @@ package atree
 //@   ensures[C09] err == nil ==> as(right, *ArrayDataSlab).next == old(a.next) && a.next == as(right, *ArrayDataSlab).header.slabID &&
 //@        as(right, *ArrayDataSlab).header.slabID.address == old(a.header.slabID.address) && a.header.slabID == old(a.header.slabID) &&
 //@        as(right, *ArrayDataSlab).header.slabID != SlabIDUndefined && sto[as(right, *ArrayDataSlab).header.slabID] == nil
-//@   modifies a.elements, a.header, a.next, ghost.touched, alloc
+//@   # the identifier of the new slab was not handed out before (so it differs from identifiers generated earlier but not stored yet)
+//@   ensures[C09] err == nil ==> !has(old(issued), as(right, *ArrayDataSlab).header.slabID) && has(issued, as(right, *ArrayDataSlab).header.slabID) && (forall id SlabID :: has(old(issued), id) ==> has(issued, id))
+//@   modifies a.elements, a.header, a.next, ghost.touched, alloc, ghost.issued
 //@   loop 1: invariant 0 <= i && i <= len(a.elements) && leftSize == sum(bs, a.elements, i) && leftSize < midPoint && leftCount == 0
 
 //@ # ---- lending / borrowing / merging (C05: both sides stay in band for every slab size)
